@@ -147,6 +147,7 @@ var faults = []string{
 	// answers the sender special-cases by field / content (onRegionError and onSendFail, branch by branch)
 	"undet", "recov", "witness", "flashback", "flashbacknp", "toolarge", "badmaxts", "knir", "bucket", "notinit", "rinr",
 	"merging", "mismatch", "rpccancel", "grpccancel", "grpcdeadline",
+	"busyww", // ServerIsBusy with an estimated wait far above any busy threshold
 }
 
 // fatalFaults: answers after which the sender gives up with an error of its own (no retry, no region error for the caller)
@@ -179,7 +180,7 @@ func owedBackoff(fault string, shortRead bool) (kind string, immediate bool) {
 		return "isWitness", true
 	case "notinit":
 		return "regionNotInitialized", true
-	case "busy", "busyw":
+	case "busy", "busyw", "busyww":
 		return "tikvServerBusy", false
 	case "busydl":
 		if shortRead {
@@ -260,14 +261,22 @@ type runner struct {
 	live     map[uint64]int
 	cancel   context.CancelFunc
 
-	lastTimes map[string]int
-	lastMS    map[string]int
-	lastTotal int
-	lastErrN  int
-	nBackoff  int
-	lastAtt   []int
-	unbounded bool
-	cap       int // hard attempt cap of this case
+	lastTimes                map[string]int
+	lastMS                   map[string]int
+	lastTotal                int
+	lastErrN                 int
+	nBackoff                 int
+	lastAtt                  []int
+	unbounded                bool
+	cap                      int // hard attempt cap of this case
+	req                      *tikvrpc.Request
+	initRR, initSR, initBusy bool
+	initType                 int
+	selInit                  bool
+	selOff                   bool // selector tie switched off for this case (forwarding, unexpected replica order)
+	flagViolation            string
+	candViolation            string
+	bothFlags                int
 
 	valCalls   int
 	valFailed  bool
@@ -379,6 +388,112 @@ func (r *runner) observeAttempts(charged ...int) {
 	r.lastAtt = cur
 }
 
+// ---- selector tie: what the real selector looks like right after it chose (before the RPC leaves)
+
+func bits(bs ...bool) string {
+	var sb strings.Builder
+	for _, b := range bs {
+		sb.WriteString(b01(b))
+	}
+	return sb.String()
+}
+
+// selLine emits `selinit` (once) and `sel …` / `selend …`: target, selector-owned state after `next`, request flags,
+// per replica `attempts:flags:inputs`, and the answer the store is about to give (handled by the model afterwards).
+func (r *runner) selLine(req *tikvrpc.Request, fault string, end bool, ranNext bool) {
+	if r.selOff || r.sender == nil {
+		return
+	}
+	if r.cfg.fwd {
+		r.selOff = true
+		return
+	}
+	sn := r.sender.VerifSelectorSnapshot(time.Duration(r.cfg.busy) * time.Millisecond)
+	if sn == nil || len(sn.Reps) != 3 || sn.Proxy >= 0 {
+		if sn != nil {
+			r.selOff = true
+		}
+		return
+	}
+	for i, rp := range sn.Reps {
+		if r.storeIdx(rp.StoreID) != i+1 || r.peerIdx(rp.PeerID) != i+1 {
+			r.selOff = true
+			return
+		}
+	}
+	if !r.selInit {
+		r.selInit = true
+		r.ev(fmt.Sprintf("selinit %s %d %s %s %s %s %s %s %s %s %s 3", b01(r.initType == int(kv.ReplicaReadLeader)), r.initType,
+			b01(sn.IsStaleRead), b01(sn.IsReadOnly), b01(sn.LeaderOnly), b01(sn.PreferLeader), b01(sn.HasLabels),
+			b01(r.initBusy), b01(r.initRR), b01(r.initSR), b01(r.initBusy)))
+	}
+	busyPeer := 0
+	if sn.LeaderBusyPeer != 0 {
+		busyPeer = r.peerIdx(sn.LeaderBusyPeer)
+	}
+	var reps []string
+	for _, rp := range sn.Reps {
+		reps = append(reps, fmt.Sprintf("%d:%s:%d%s", rp.Attempts, bits(rp.Deadline, rp.DataNotReady, rp.NotLeader, rp.ServerBusy, rp.Suspect),
+			rp.Live, bits(rp.Slow, rp.EpochStale, rp.LabelMatch, rp.Learner, rp.Over)))
+	}
+	if !end && req.ReplicaRead && req.StaleRead {
+		r.bothFlags++
+	}
+	if !end && sn.Target >= 0 && r.flagViolation == "" {
+		r.flagViolation = readFlagRules(sn, req.ReplicaRead, req.StaleRead, r.initSR)
+	}
+	if !end && sn.Target >= 0 && r.candViolation == "" {
+		// theorem chosen_is_candidate on the implementation's own state: the replica just charged was not exhausted,
+		// is not known unreachable and its store epoch is not stale
+		t := sn.Reps[sn.Target]
+		switch {
+		case t.Attempts > locate.VerifMaxReplicaAttempt():
+			r.candViolation = fmt.Sprintf("replica %d sent to with attempts=%d", sn.Target+1, t.Attempts)
+		case t.Live == 1:
+			r.candViolation = fmt.Sprintf("replica %d sent to although its store is known unreachable", sn.Target+1)
+		case t.EpochStale:
+			r.candViolation = fmt.Sprintf("replica %d sent to although its store epoch is stale", sn.Target+1)
+		}
+	}
+	head := "sel"
+	tail := fault + " " + b01(r.cfg.short && !isWriteCmd(r.cfg.cmd))
+	if end {
+		head = "selend"
+		tail = b01(ranNext) + " " + fault
+	}
+	tgt := sn.Target
+	if tgt < 0 {
+		tgt = 9 // none
+	}
+	r.ev(fmt.Sprintf("%s %d %d %s %d %d %s %s %s %d %d %s %s %s %s %s %s", head, tgt, sn.LeaderIdx,
+		b01(sn.ReadType == int(kv.ReplicaReadLeader)), int(req.ReplicaReadType), sn.SelAttempts, b01(sn.BusyThreshold),
+		b01(sn.InvalidatedForRetry), b01(sn.RegionValid), sn.LeaderBusyCount, busyPeer, b01(sn.LeaderBusyProbed),
+		b01(req.ReplicaRead), b01(req.StaleRead), b01(req.BusyThresholdMs > 0), strings.Join(reps, " "), tail))
+}
+
+// readFlagRules: the flag discipline evaluated on the implementation's own observation of one attempt (selector snapshot
+// right after the choice + the flags of the request that leaves). Returns "" or what is wrong.
+//
+//	R1 ReplicaRead and StaleRead are never both set
+//	R2 StaleRead only on a request that entered as a stale read
+//	R3 not a stale read, selector not in leader-read mode: StaleRead clear, ReplicaRead == (read command && target is not the leader)
+//	R4 stale read, second attempt, target is a reachable, untouched leader tried for the first time: both flags clear
+func readFlagRules(sn *locate.VerifSelSnap, rr, sr, enteredStale bool) string {
+	t := sn.Reps[sn.Target]
+	isLeader := sn.Target == sn.LeaderIdx
+	leaderRead := sn.ReadType == int(kv.ReplicaReadLeader)
+	switch {
+	case sr && !enteredStale:
+		return "R2 StaleRead on a request that is not a stale read"
+	case !sn.IsStaleRead && !leaderRead && (sr || rr != (sn.IsReadOnly && !isLeader)):
+		return fmt.Sprintf("R3 role flags: replicaRead=%v staleRead=%v targetIsLeader=%v readOnly=%v", rr, sr, isLeader, sn.IsReadOnly)
+	case sn.IsStaleRead && !leaderRead && sn.SelAttempts == 2 && isLeader && t.Attempts == 1 && t.Live == 0 && !t.EpochStale &&
+		!t.Deadline && !t.NotLeader && !t.Suspect && (rr || sr):
+		return fmt.Sprintf("R4 stale read fell back to the leader with replicaRead=%v staleRead=%v", rr, sr)
+	}
+	return ""
+}
+
 // ---- scripted client
 
 type scriptClient struct{ r *runner }
@@ -428,6 +543,7 @@ func (c *scriptClient) SendRequest(ctx context.Context, addr string, req *tikvrp
 		rec.payload = fmt.Sprintf("v%d", n)
 	}
 	r.rpcs = append(r.rpcs, rec)
+	r.selLine(req, fault, false, false)
 	r.observeAttempts(rec.peer, rec.proxy)
 	r.ev(fmt.Sprintf("ev send %d %d %s %s %s %d %d %s %s", rec.peer, rec.store, b01(rec.rr), b01(rec.sr), b01(rec.retry), rec.proxy,
 		r.consumedAttempts(rec), r.respLabel(fault, rec), fault))
@@ -549,6 +665,8 @@ func (r *runner) answer(fault string, rec rpcRec, req *tikvrpc.Request, n int) (
 		e.ServerIsBusy = &errorpb.ServerIsBusy{EstimatedWaitMs: 10}
 	case "busydl":
 		e.ServerIsBusy = &errorpb.ServerIsBusy{Reason: "deadline is exceeded"}
+	case "busyww":
+		e.ServerIsBusy = &errorpb.ServerIsBusy{EstimatedWaitMs: 100000}
 	case "stale":
 		e.StaleCommand = &errorpb.StaleCommand{}
 	case "snm":
@@ -710,7 +828,8 @@ func (r *runner) run() (out outcome) {
 	r.cluster = mocktikv.NewCluster(sharedMvcc)
 	var leaderPeer uint64
 	r.storeIDs, r.peerIDs, r.regionID, leaderPeer = mocktikv.BootstrapWithMultiStores(r.cluster, 3)
-	_ = leaderPeer
+	// a region epoch above zero, so that `epochold` (an EpochNotMatch carrying an OLDER epoch) exists
+	r.cluster.PutRegion(r.regionID, 3, 3, r.storeIDs, r.peerIDs, leaderPeer)
 	if c.learner {
 		r.cluster.RemovePeer(r.regionID, r.peerIDs[2])
 		np := r.cluster.AllocID()
@@ -760,6 +879,7 @@ func (r *runner) run() (out outcome) {
 	defer oracles.EnableTSValidation.Store(false)
 
 	req, opts, timeout := r.buildReq(ts)
+	r.req, r.initRR, r.initSR, r.initBusy, r.initType = req, req.ReplicaRead, req.StaleRead, req.BusyThresholdMs > 0, int(req.ReplicaReadType)
 	r.sender = locate.NewRegionRequestSender(r.cache, &scriptClient{r}, &recValidator{r: r, inner: sharedOracle})
 	base, cancel := context.WithCancel(context.Background())
 	r.cancel = cancel
@@ -840,6 +960,9 @@ func (r *runner) run() (out outcome) {
 	}
 	lastIsResp := len(r.rpcs) > 0 && rs.resp != nil && r.rpcs[len(r.rpcs)-1].resp != nil && r.rpcs[len(r.rpcs)-1].resp.Resp == rs.resp.Resp
 	r.mu.Lock()
+	if !hang && !r.unbounded && rs.panic == "" {
+		r.selLine(r.req, result, true, result == "regionerr" && detail == "pseudo" && !lastIsResp)
+	}
 	r.ev(fmt.Sprintf("ev result %s %s %s", result, detail, b01(lastIsResp)))
 	events := append([]string{}, r.events...)
 	r.mu.Unlock()
@@ -941,6 +1064,19 @@ func (r *runner) run() (out outcome) {
 		}
 	}
 	emit("prop backoffdiscipline", d)
+
+	// 2c. read-mode flags follow the decision table (rules R1-R4 on the selector's own state at every attempt)
+	if r.flagViolation != "" {
+		emit("prop readflags", "FAIL "+r.flagViolation)
+	} else {
+		emit("prop readflags", "ok")
+	}
+
+	if r.candViolation != "" {
+		emit("prop candidate", "FAIL "+r.candViolation)
+	} else {
+		emit("prop candidate", "ok")
+	}
 
 	// 3. write commands never flagged replica read / stale read
 	w := "ok"
@@ -1122,11 +1258,14 @@ func main() {
 			run.Count("result:" + resultOf(out))
 			run.Count(fmt.Sprintf("sends:%02d", min(len(r.rpcs), 40)/5*5))
 			run.Count(fmt.Sprintf("backoffs:%02d", min(r.nBackoff, 40)/5*5))
+			if r.bothFlags > 0 {
+				run.Count("obs:both-flags")
+			}
 			run.Count("mode:" + s.cfg.mode)
 			run.Count("cmd:" + s.cfg.cmd)
 			run.Stats["rpcs"] += len(r.rpcs)
 			run.Stats["cases"]++
-		case "ev", "prop":
+		case "ev", "prop", "sel", "selinit", "selend":
 			// derived lines: regenerated by `go`, ignored on input
 		default:
 			run.Emit(line, "bad-op")
